@@ -291,7 +291,9 @@ fn decompress_multiple_internal(
         monitor.check_progress(current_data.len() as u64)?;
     } else if has_bzip2 {
         log::debug!("Decompressing BZip2");
-        current_data = algorithms::bzip2::decompress(&current_data, expected_size * 4)?;
+        // Only the size after the last stage is known here, so the intermediate
+        // stream cannot be checked against an exact size
+        current_data = algorithms::bzip2::decompress_unsized(&current_data, expected_size * 4)?;
         monitor.check_progress(current_data.len() as u64)?;
     } else if has_sparse {
         log::debug!("Decompressing Sparse");
